@@ -118,10 +118,23 @@ func evalC11(c *engine.Case) engine.Verdict {
 				}
 			}
 		}
+		if msg := engine.ConsumedFromFailedExec(w, evs); msg != "" {
+			v.Failf("step %d: %s (a failed first execution must be what every later use observes)", si, msg)
+			return false
+		}
 		for _, o := range outs {
 			if o.Panic != "" {
 				v.Failf("step %d: panic: %s", si, o.Panic)
 				return false
+			}
+			if want := failedErr[engine.TargetID]; sc.Target.Once && want != nil && o.Err != want {
+				// resolution errors and failures of converters on the way are
+				// fine; success, or another error object of the target, is not
+				fe, isBody := o.Err.(*engine.FailErr)
+				if o.Err == nil || (isBody && fe.Func == engine.TargetID) {
+					v.Failf("step %d: the run-once target failed on its first execution, but a later use returned %v instead of that error", si, o.Err)
+					return false
+				}
 			}
 			if sc.Target.Once && o.Err == nil {
 				// every successful use of a run-once target observes the
@@ -261,6 +274,9 @@ func genC11(g engine.G) *engine.Case {
 		// the run-once function is the target itself (results positional so
 		// that returned tokens are comparable; possibly no results at all)
 		sc.Target.Once = true
+		if g.Pct(30) {
+			sc.Target.HasErr, sc.Target.Fail = true, true
+		}
 		sc.Target.OutForm = engine.FormPos
 		for i := range sc.Target.Out {
 			sc.Target.Out[i].Name, sc.Target.Out[i].Sub, sc.Target.Out[i].Tag = "", "", false
